@@ -580,3 +580,103 @@ def _m_noepoch(case, v):
             if not ({e - 1, e} & set(f.get("loaded_model_epochs") or [])):
                 return False
     return True
+
+
+# ---------------------------------------------------------------- near-ties at the printed precision (crash-free, with restarts)
+
+_NT_BASE = [0.4, 0.25, 1.5, 3.0, 0.0123, 120.0]
+_NT_DELTA = [0.0, 0.0, 4e-6, -4e-6, 1e-6, -1e-6, 3e-5, -3e-5]
+
+
+@st.composite
+def _near_tie_case(draw, tier):
+    n = draw(st.integers(2, 6 if tier == "quick" else 9))
+    pool = draw(st.lists(st.sampled_from(_NT_BASE), min_size=1, max_size=2, unique=True))
+    return {
+        "val": [[draw(st.sampled_from(pool)), draw(st.sampled_from(_NT_DELTA))] for _ in range(n)],
+        "restart_after": draw(st.lists(st.booleans(), min_size=n, max_size=n)),
+        "keep": draw(st.sampled_from([True, True, False])),
+    }
+
+
+@subcheck("C16", "near_tie_restart", lambda tier: _near_tie_case(tier), quick=200, thorough=3000,
+          doc="crash-free runs whose validation metrics tie at the history file's 5 significant digits but differ as raw floats "
+              "(documented: negligible differences are decided at METRIC_PRECISION); after every completed update the running "
+              "controller AND a controller rebuilt from the files can load the last and the best epoch and get the parameters "
+              "saved for them; keep mode: the directory holds exactly those epochs' files",
+          required_classes=["tie_at_print_precision", "restarted"])
+def _near_tie_check(case):
+    import os
+    import shutil
+    import tempfile
+    import warnings
+
+    import torch
+    from pydrobert.torch.training import TrainingStateController, TrainingStateParams
+
+    vals = [b * (1.0 + d) for b, d in case["val"]]
+    params = TrainingStateParams(keep_last_and_best_only=case["keep"], early_stopping_threshold=0.0, reduce_lr_threshold=0.0)
+    root = tempfile.mkdtemp(prefix="vf_")
+    classes = ["keep_last_and_best" if case["keep"] else "keep_everything"]
+    fmt5 = ["%.5g" % v for v in vals]
+    if len(set(fmt5)) < len(set(vals)):
+        classes.append("tie_at_print_precision")
+
+    def fresh():
+        model = torch.nn.Linear(1, 1)
+        opt = torch.optim.SGD(model.parameters(), lr=0.5)
+        return model, opt
+
+    def make():
+        return TrainingStateController(params, os.path.join(root, "hist.csv"), os.path.join(root, "states"), warn=False)
+
+    def verify(ctl, who, e_now):
+        last = ctl.get_last_epoch()
+        require(last == e_now, "%s: last recorded epoch" % who, last, e_now)
+        best = ctl.get_best_epoch()
+        require(1 <= best <= e_now, "%s: best epoch out of range" % who, best, [1, e_now])
+        m, o = fresh()
+        ctl.load_model_and_optimizer_for_epoch(m, o, last)
+        require(float(m.weight) == float(last), "%s: parameters loaded for the last epoch %d" % (who, last), float(m.weight), float(last))
+        m, o = fresh()
+        ctl.load_model_for_epoch(m, best)
+        require(float(m.weight) == float(best), "%s: parameters loaded for the best epoch %d" % (who, best), float(m.weight), float(best))
+        m, o = fresh()
+        ctl.load_model_and_optimizer_for_epoch(m, o, best)
+        require(float(m.weight) == float(best), "%s: model+optimizer loaded for the best epoch %d" % (who, best), float(m.weight),
+                float(best))
+        if case["keep"]:
+            have = sorted(os.listdir(os.path.join(root, "states")))
+            want = sorted({os.path.basename(ctl.get_model_path_with_info(ctl.get_info(e))) for e in (last, best)}
+                          | {os.path.basename(ctl.get_optimizer_path_with_info(ctl.get_info(e))) for e in (last, best)})
+            require(have == want, "%s: state directory does not hold exactly the last and best epochs' files" % who, have, want)
+        else:
+            for e in range(1, e_now + 1):
+                m, o = fresh()
+                ctl.load_model_and_optimizer_for_epoch(m, o, e)
+                require(float(m.weight) == float(e), "%s: recorded epoch %d does not load its own parameters" % (who, e), float(m.weight),
+                        float(e))
+
+    try:
+        with warnings.catch_warnings():
+            warnings.simplefilter("ignore")
+            ctl = make()
+            model, opt = fresh()
+            ctl.load_model_and_optimizer_for_epoch(model, opt, 0)
+            for i, v in enumerate(vals):
+                e = i + 1
+                with torch.no_grad():
+                    model.weight.fill_(float(e))
+                    model.bias.fill_(float(e))
+                ctl.update_for_epoch(model, opt, v, v)
+                verify(ctl, "running controller after epoch %d" % e, e)
+                rebuilt = make()
+                verify(rebuilt, "controller rebuilt from the files after epoch %d" % e, e)
+                if case["restart_after"][i]:
+                    classes.append("restarted")
+                    ctl = rebuilt
+                    model, opt = fresh()
+                    ctl.load_model_and_optimizer_for_epoch(model, opt, e)
+    finally:
+        shutil.rmtree(root, ignore_errors=True)
+    return Info(nontrivial="tie_at_print_precision" in classes, classes=sorted(set(classes)))
